@@ -31,20 +31,68 @@ pub fn run(thorough: bool, seed: u64) {
     let n_threads = 16;
     let mut total = 0usize;
     let mut fails = 0usize;
-    for round in 0..rounds {
+    // two extra rounds with LARGE tables (tens of thousands of tag models / dictionary words): whatever a predictor might
+    // compute lazily over them at its first use takes long enough for the other threads to see it half done
+    for round in 0..rounds + 2 {
         let (mut m, alpha) = gen_model(&mut r, &opts);
         // every scorer variant: with tag models (tag-aware scorers), without (plain / cached scorers), tags switched off
         let mode = round % 3;
         if mode != 1 {
             gen_tag_models(&mut r, &mut m, &alpha, 4);
         }
+        let mut big_texts: Vec<String> = vec![];
+        let (big, mode) = if round >= rounds { (true, 0) } else { (false, mode) };
+        if big {
+            // no boundary anywhere (bias -1, nothing else), so a whole text is one token; every text is a token with a tag model
+            m = crate::model::AbsModel { char_w: 2, type_w: 2, bias: -1, ..Default::default() };
+            let syll = ['a', 'b', 'あ', 'い', '漢', 'カ', '1', 'z'];
+            let n_tok = if thorough { 60000 } else { 30000 };
+            for k in 0..n_tok {
+                let len = 1 + k % 6;
+                let mut x = k;
+                let tok: String = (0..len).map(|_| { let c = syll[x % 8]; x /= 8; c }).collect::<String>() + &"x".repeat(k % 7);
+                if round == rounds {
+                    m.tag_models.push(crate::model::AbsTagModel {
+                        token: tok.clone(),
+                        tags: vec![vec!["P".into(), "Q".into()], vec!["only".into()]],
+                        bias: vec![(k % 3) as i32 - 1, 0],
+                        ..Default::default()
+                    });
+                } else {
+                    m.dict.push((tok.clone(), vec![1; tok.chars().count() + 1], String::new()));
+                }
+                if k % 97 == 0 || tok.chars().count() >= 11 {
+                    big_texts.push(tok);
+                }
+            }
+            m.tag_models.sort_by(|a, b| a.token.cmp(&b.token));
+            m.tag_models.dedup_by(|a, b| a.token == b.token);
+            m.dict.sort();
+            m.dict.dedup_by(|a, b| a.0 == b.0);
+            if round != rounds {
+                m.bias = -3;
+                big_texts = big_texts.chunks(3).map(|c| c.join("。")).collect();
+            }
+        }
         let spec = format!("{}^{}", m.to_text(), if mode == 2 { "00" } else { "11" });
+        let spec_print = if big {
+            format!("(generated: bias {}, {} tag models with candidates [P,Q],[only] and no n-grams, {} dictionary words; thread run, round {round})", m.bias, m.tag_models.len(), m.dict.len())
+        } else {
+            spec.clone()
+        };
         // the sequential reference uses its own predictor: the shared one sees its very first use from all threads at once
         let Ok(p_seq) = build_pred(&spec).1 else { continue };
         let Ok(p) = build_pred(&spec).1 else { continue };
         let p = Arc::new(p);
         let barrier = Arc::new(std::sync::Barrier::new(n_threads));
-        let texts: Vec<String> = (0..(if thorough { 400 } else { 150 })).map(|_| gen_text_tags(&mut r, &m, &alpha, 24)).collect();
+        let texts: Vec<String> = if big {
+            // longest tokens first: a partially computed "longest token" is wrong for exactly these
+            big_texts.sort_by_key(|t| std::cmp::Reverse(t.chars().count()));
+            big_texts.truncate(200);
+            big_texts.clone()
+        } else {
+            (0..(if thorough { 400 } else { 150 })).map(|_| gen_text_tags(&mut r, &m, &alpha, 24)).collect()
+        };
         let texts = Arc::new(texts);
         // sequential reference on fresh sentences
         let expected: Vec<String> = texts
@@ -79,12 +127,12 @@ pub fn run(thorough: bool, seed: u64) {
                     total += n;
                     for (i, got) in bad {
                         fails += 1;
-                        println!("FAIL round={round} model={spec} text={} concurrent={got} sequential={}", crate::util::hexs(&texts[i]), expected[i]);
+                        println!("FAIL round={round} model={spec_print} text={} concurrent={got} sequential={}", crate::util::hexs(&texts[i]), expected[i]);
                     }
                 }
                 Err(_) => {
                     fails += 1;
-                    println!("FAIL round={round} model={spec} a worker thread panicked");
+                    println!("FAIL round={round} model={spec_print} a worker thread panicked");
                 }
             }
         }
